@@ -130,7 +130,11 @@ theorem step_busy {s : St} (h : SInv s) (hb : Busy s) (cfg : Cfg) (e : Ev) (hne 
       simp only [step]; split
       · exact hb
       · exact joinAndSync_busy
-    | stop => simp only [step]; exact busy_of_call (stopCall_res h.toWInv cfg none true (rd_idle h) h.hb_has) hb
+    | stop =>
+      simp only [step]
+      rcases userStop_cases cfg s with ⟨hu, _, _⟩ | hu <;> rw [hu]
+      · exact hb
+      · exact busy_of_call (stopCall_res h.toWInv cfg none true (rd_idle h) h.hb_has) hb
     | coordDone r =>
       simp only [step]; split
       · exact hb
